@@ -53,7 +53,7 @@ def table_findings(ck, mir, S):
                 ck.witness("C11:any-member-named-__ANY__", "%s: info() reports the member __ANY__, the constructor keyword is anytypeobjs_" % c,
                            input={"class": c}, expected=sorted(ctor), observed=sorted(info), broken="Props_C11.v:C11_info_ctor_exact")
             else:
-                ck.witness("C11:info-vs-constructor:%s" % c, "%s: info() names %s, constructor keywords %s" % (
+                ck.witness("C11:info-vs-constructor", "%s: info() names %s, constructor keywords %s" % (
                     c, sorted(set(info) - set(ctor)), sorted(set(ctor) - set(info))), input={"class": c},
                     expected=sorted(ctor), observed=sorted(info), broken="Inst_C11.v:info_ctor_ok")
         px = {}
@@ -137,12 +137,32 @@ def introspection(ck, mir, S, res):
                 ck.witness("C11:any-member-named-__ANY__", "%s: info() reports __ANY__, the constructor accepts anytypeobjs_" % c,
                            input={"class": c}, expected=sorted(sig), observed=sorted(info))
             else:
-                ck.witness("C11:info-vs-constructor:%s" % c, "real info() %s vs real signature %s" % (sorted(info - set(sig)), sorted(set(sig) - info)),
+                ck.witness("C11:info-vs-constructor", "real info() %s vs real signature %s" % (sorted(info - set(sig)), sorted(set(sig) - info)),
                            input={"class": c}, expected=sorted(sig), observed=sorted(info))
         if r["unused_kw"]:
             ck.witness("C11:constructor-keyword-not-stored", "keywords accepted but not stored: %s" % r["unused_kw"], input={"class": c})
         if not r["has_kwargs"]:
             ck.tally("constructor-without-**kwargs")
+    # the real info() answers against the schema (required flag and type as reported to the user)
+    sc = {c["name"]: c for c in S["classes"]}
+    for r in ok_res:
+        c = r["cls"]
+        px = {}
+        for p, x, a in mir.pyxml(c):
+            px.setdefault(p, (x, a))
+        decls = {}
+        for d in sc.get(c, {"all": []})["all"]:
+            decls.setdefault((d["xml"], d["is_attr"]), d)
+        for x in r["info"]:
+            n, t, q = x.split("|")
+            d = decls.get(px.get(rename_any(n)))
+            if d is None or (c == "ComponentType" and n == "Property"):
+                continue     # reported by table_findings
+            t_ok = t == d["type"] or t == S["simple_base"].get(d["type"])
+            if not t_ok or (q == "R") != d["required_literal"]:
+                ck.witness("C11:real-info-vs-schema", "%s.info() reports %s as (%s, %s); the schema declares (%s, %s)" % (
+                    c, n, t, "Required" if q == "R" else "Optional", d["type"], "required" if d["required_literal"] else "optional"),
+                    input={"class": c, "member": n}, expected=d, observed=x)
     # parentinfo is the inverse of info over all classes (on the real answers)
     fwd = set()
     for r in ok_res:
@@ -262,7 +282,7 @@ def idcases(ck, mir, cases, res):
         except ValueError:
             coq_ok = False
         if coq_ok:
-            defs.append("Definition doc_%d : obj XF := %s." % (k, doc_coq))
+            defs.append((k, "Definition doc_%d : obj XF := %s." % (k, doc_coq)))
         for i, lk in zip(case["ids"], r["lookups"]):
             matches = [x for x in comps if dict((n, v) for n, v in x["fields"]).get("id") == {"s": i}]
             inp = {"document": case["tree"], "set": case.get("set"), "id": i, "warn_count": lk["wc"]}
@@ -294,12 +314,13 @@ def idcases(ck, mir, cases, res):
                 rows.append("{| gc_is_doc := %s; gc_obj := doc_%d; gc_wc := %d%%nat; gc_id := %s; gc_res := %d%%nat; gc_found := %s; "
                             "gc_wc_after := %d%%nat; gc_msg := %d%%nat |}" % (supergen.b(is_doc), k, lk["wc"], coq_str(i), lk["res"], found,
                                                                               lk["wc_after"], lk["msg"]))
-                meta.append((inp, lk))
+                meta.append((inp, lk, k))
     shard = 120
     from concurrent.futures import ThreadPoolExecutor
     texts = []
     for s in range(0, len(rows), shard):
-        texts.append(("Cases_C11_id_%d.v" % (s // shard), s, HEADER + "\n".join(defs) + "\nDefinition cases : list idcase := %s.\n" % coq_list(
+        used = set(m[2] for m in meta[s:s + shard])
+        texts.append(("Cases_C11_id_%d.v" % (s // shard), s, HEADER + "\n".join(d for k, d in defs if k in used) + "\nDefinition cases : list idcase := %s.\n" % coq_list(
             ["\n " + x for x in rows[s:s + shard]]) + "Eval vm_compute in (id_mismatches true Gen_Members.M 0 cases).\n"))
     with ThreadPoolExecutor(max_workers=4) as ex:
         evals = list(ex.map(lambda f: ck.coq_eval(f[0], f[2], timeout=900), texts))
@@ -309,7 +330,7 @@ def idcases(ck, mir, cases, res):
             continue
         for m in re.finditer(r"\((\d+)%nat, (\d+)%nat\)", results[0] if results else ""):
             i, bits = int(m.group(1)), int(m.group(2))
-            inp, lk = meta[s + i]
+            inp, lk, _ = meta[s + i]
             which = [nm for b_, nm in ((1, "result"), (2, "component"), (4, "counter"), (8, "message")) if bits & b_]
             ck.disagree("Super.get_by_id[" + "+".join(which) + "]", inp, "model differs (bits %d)" % bits, lk)
     ck.extra["get_by_id_lookups"] = len(rows)
